@@ -50,6 +50,11 @@ func (ial *IndentAwareLexer) checkNextToken() {
 func (ial *IndentAwareLexer) handleNewLineToken(currentToken antlr.Token) {
 	ial.pendingTokens.Enqueue(currentToken)
 
+	if ial.nextLineIsBlankOrComment() {
+		// blank, whitespace-only and comment-only lines never change the indentation level
+		return
+	}
+
 	currentIndentationLength := ial.getLengthOfNewlineToken(currentToken)
 
 	previousIndent := 0
@@ -73,6 +78,19 @@ func (ial *IndentAwareLexer) handleNewLineToken(currentToken antlr.Token) {
 			}
 		}
 	}
+}
+
+// nextLineIsBlankOrComment tells whether the line that starts after the NEWLINE token that was
+// just lexed (which includes the indentation of that line) holds no statement.
+func (ial *IndentAwareLexer) nextLineIsBlankOrComment() bool {
+	input := ial.GetInputStream()
+	switch input.LA(1) {
+	case antlr.TokenEOF, '\n', '\r':
+		return true
+	case '/':
+		return input.LA(2) == '/'
+	}
+	return false
 }
 
 func (ial *IndentAwareLexer) getLengthOfNewlineToken(currentToken antlr.Token) int {
